@@ -38,6 +38,7 @@ func runC03(c *Ctx) {
 	c.Rule("C03.R7", "PANIC", "pattern compiler: every index/slice proved in range", 1)
 	c.Rule("C03.R10", "PDT", "the pattern verdict is the verdict of the compiled expression", 2)
 	c.Rule("C03.R8", "LIN", "trailing '/*' rewrite removes exactly that suffix; no other rewrite", 2)
+	importRules(c, runC05, map[string]string{"C05.R3": "C03.R12"}, map[string]string{"C03.R12": "the literal a rule is pre-filtered by is taken from its own pattern and lower-cased like the URL it is searched in, so the pre-filter never rejects what the pattern accepts (shared with C05.R3)"})
 
 	a := &anchors{c: c, rule: "C03.R1"}
 	pp := a.method("rules", "NetworkRule", "preparePattern")
